@@ -316,7 +316,7 @@ def _single_event(draw, w, kinds):
 
 VARIANTS = ["add_event:event", "add_event:trans", "add_event:event_eq", "add_transition", "add_birth_death:B", "add_birth_death:D",
             "add_ode:add_ode", "add_ode:ode_list", "add_ode:ode_list_single", "add_param:concat", "add_param:list",
-            "add_param:string", "add_derived", "redefine_derived", "shadow_param"]
+            "add_param:string", "add_derived", "redefine_derived", "shadow_param", "shadow_param", "shadow_param"]
 
 
 def _redefinable(m):
